@@ -18,6 +18,18 @@ open KV
 
 def parseNats (s : String) : List Nat := (s.splitOn ",").filter (· ≠ "") |>.map String.toNat!
 
+def parseMapIn (net : Net) (strip capsMin rest : String) : Option MapIn :=
+  match rest.splitOn "|" with
+  | [opsS, startsS, locsS, capsS, clenS] =>
+    let ops := (opsS.splitOn "/").filter (· ≠ "") |>.map fun t =>
+      match (t.splitOn ",").map String.toNat! with
+      | [l, o, a, b, c, d] => OpRow.mk l o a b c d
+      | _ => default
+    some { net := net, strip := strip == "1", ops := ops, starts := parseNats startsS,
+           locs := ((locsS.splitOn ",").filter (· ≠ "") |>.map String.toInt!).toArray,
+           caps := (parseNats capsS).toArray, cLen := clenS.toNat!, capsMin := capsMin.toNat! }
+  | _ => none
+
 /-! ### spec tables (specification answers for the Python oracles) -/
 def packCodes (l : List Nat) : Nat :=
   (l.zipIdx.map fun (v, i) => v <<< (3 * i)).foldl (· + ·) 0
@@ -221,17 +233,13 @@ def step (st : DState) (line : String) : DState × String :=
       (st, "".intercalate res)
   | ["mapok", strip, capsMin, rest] =>
       -- rest = ops|starts|locs|caps|clen with , inside and / between ops
-      match rest.splitOn "|" with
-      | [opsS, startsS, locsS, capsS, clenS] =>
-        let ops := (opsS.splitOn "/").filter (· ≠ "") |>.map fun t =>
-          match (t.splitOn ",").map String.toNat! with
-          | [l, o, a, b, c, d] => OpRow.mk l o a b c d
-          | _ => default
-        let p : MapIn := { net := st.net, strip := strip == "1", ops := ops, starts := parseNats startsS,
-                           locs := ((locsS.splitOn ",").filter (· ≠ "") |>.map String.toInt!).toArray,
-                           caps := (parseNats capsS).toArray, cLen := clenS.toNat!, capsMin := capsMin.toNat! }
-        (st, match p.check with | none => "ok" | some e => "FAIL " ++ e)
-      | _ => (st, "bad")
+      match parseMapIn st.net strip capsMin rest with
+      | some p => (st, match p.checkFast with | none => "ok" | some e => "FAIL " ++ e)
+      | none => (st, "bad")
+  | ["schedok", strip, capsMin, rest, sched] =>
+      match parseMapIn st.net strip capsMin rest with
+      | some p => (st, if p.schedOKB (parseNats sched) then "ok" else "FAIL")
+      | none => (st, "bad")
   | ["netcert", order] =>
       (st, s!"wf={st.net.wfB} order={orderOKB st.net (parseNats order)}")
   | ["wellordered", opsS] =>
